@@ -36,6 +36,10 @@ class L4Run:
         else:
             self.w = DilMidWorld()
         self.real = real
+        # every other run the receiving application answers each piece of data (bidirectional traffic on the subchannels)
+        self.echo = (seed % 2 == 0)
+        if self.echo:
+            self.w.echo_side = self.b
         self.w.connect()
         if self.listening:
             self.w.listen(self.b, "p")
@@ -172,6 +176,18 @@ class L4Run:
                 return k
         return -2
 
+    def echoes(self):
+        """-> per subchannel opened by a: what its protocol received, and the answers expected to what was written on it"""
+        expected = {}
+        for k in self.issued:
+            if 0 <= k < len(SCRIPT) and SCRIPT[k][0] == "write":
+                expected.setdefault(SCRIPT[k][1], []).append((b"echo:" + self._payload(k)[:64]).decode("latin-1"))
+        out = []
+        for sc, p in sorted(self.protos.items()):
+            got = [e[1].decode("latin-1") for e in getattr(p, "log", []) if e[0] == "data"]
+            out.append({"got": got, "expected": expected.get(sc, [])})
+        return out
+
     def per_sub(self):
         """issued and delivered operation indexes grouped by subchannel (the order the statement promises when the
         listener came late: per subchannel)"""
@@ -207,6 +223,8 @@ class L4Run:
                "lateListen": self.late_listen is not None, "perSub": self.per_sub(),
                # the other direction of each close: the subchannel a closed is reported lost to a's application once the
                # peer's CLOSE has come back (it travels - and is re-sent after a loss - like every other record)
+               # what came back (echo runs): per subchannel a prefix of the answers to what was written on it, in order, once
+               "echoes": self.echoes(), "echoErrors": list(getattr(w, "echo_errors", [])),
                "closedByOpener": sum(1 for k in self.issued if 0 <= k < len(SCRIPT) and SCRIPT[k][0] == "close"),
                "lostAtOpener": sum(1 for ev in w.app_events if ev[0] == self.a and ev[2] == "lost")}
         w.close()
@@ -719,6 +737,9 @@ def run(prop, tier):
                 records.append(rec)
                 meta[tid] = {"schedule": [["public-api-expected", expected, opens, listen]], "config": "public"}
             cov["public_api_cases"] = n
+        if prop == "C10":
+            cov["echo"] = {"runs_with_answers": sum(1 for r_ in records if any(x["got"] for x in r_.get("echoes", []))),
+                           "answers_received": sum(len(x["got"]) for r_ in records for x in r_.get("echoes", []))}
         verdicts = run_observer(wd, records)
     decides = {"C10": ["InOrderOnce", "Goal", "NoInternal"],
                "C13": ["OpensOnce", "NothingAfterLost", "DataInOrder", "IdsDisjoint", "UnexpectedRefused", "WriteAfterCloseErrors", "NoInternal", "CloseOnce"]}[prop]
